@@ -100,6 +100,13 @@ func (s *streamWriter) Invoke(msgs []actor.Envelope) {
 		})
 	}
 
+	// Nothing for the wire. That is all that can happen while init is still
+	// dialing: the router is blocked in our Start until then, so only messages
+	// that are not ours can arrive, and there is no stream to touch yet.
+	if len(messages) == 0 {
+		return
+	}
+
 	env := &Envelope{
 		Senders:   senders,
 		Targets:   targets,
